@@ -1175,6 +1175,53 @@ func (g *c04Gen) quoteProbe() string {
 	return strings.TrimSuffix(sb.String(), "\n")
 }
 
+// wordProbe: words made of several adjacent quoted parts whose contents are backslash runs of
+// length 1-5 before $ " ` ' a and plain text, printed so that the value is observable.  The scan of
+// one double-quoted part must not depend on how the scan of the previous part ended.
+func (g *c04Gen) wordProbe() string {
+	r := g.r
+	dq := func() string {
+		var sb strings.Builder
+		for i, n := 0, 1+r.Intn(3); i < n; i++ {
+			switch r.Intn(5) {
+			case 0:
+				sb.WriteString(r.Pick([]string{"a", "C:", "dir", "quoted", "x y", "#", "*", "it"}))
+			default:
+				n := 1 + r.Intn(5)
+				ch := r.Pick([]string{"$", "\"", "`", "'", "a", "d", "'", "$", "\""})
+				if (ch == "$" || ch == "\"" || ch == "`") && n%2 == 0 {
+					n++ // an even run would leave the character active
+				}
+				sb.WriteString(strings.Repeat("\\", n) + ch)
+				if ch == "$" {
+					sb.WriteString(r.Pick([]string{"", "x", " "}))
+				}
+			}
+		}
+		return "\"" + sb.String() + "\""
+	}
+	word := func() string {
+		var sb strings.Builder
+		if r.Chance(25) {
+			sb.WriteString(r.Pick([]string{"x", "a=", "-"}))
+		}
+		for i, n := 0, 2+r.Intn(3); i < n; i++ {
+			switch k := r.Intn(10); {
+			case k < 7:
+				sb.WriteString(dq())
+			case k == 7:
+				sb.WriteString("'" + r.Pick([]string{"q", "\\", "$x", " "}) + "'")
+			case k == 8:
+				sb.WriteString(r.Pick([]string{"y", "\\$", "$e"}))
+			default:
+				sb.WriteString("$" + dq())
+			}
+		}
+		return sb.String()
+	}
+	return "printf '%s\\n' " + word() + " " + word() + "; echo " + word()
+}
+
 var c04Probes = []string{
 	// parentheses in arithmetic: only redundant ones may go (precedence, comma, assignment)
 	"echo $(( 2 * (3 + $a) )) $(( (z = 2, 3) * 2 )) $(( -(1 - $b) )) $(( ((1, 2)) )) $(( (2 + 3) * (4 - 1) )) $z",
@@ -1205,6 +1252,8 @@ func (g *c04Gen) program() string {
 	var sb strings.Builder
 	sb.WriteString(c04Prelude)
 	sb.WriteString(g.quoteProbe())
+	sb.WriteByte('\n')
+	sb.WriteString(g.wordProbe())
 	sb.WriteByte('\n')
 	sb.WriteString(g.r.Pick(c04Probes))
 	sb.WriteByte('\n')
